@@ -393,7 +393,9 @@ int main(int argc, char** argv) {
         // observers, at random, between any two updates (each is an event of its own: get_estimate & co. have side effects)
         while (g.chance(obs_pct)) {
           int ob = (int)g.below(10);
-          if (ob < 5) {
+          if (ob < 3 && !high) {
+            emit_results3(p, u);           // all three types, with and without a preceding estimate query (on a copy)
+          } else if (ob < 5) {
             int t = T3[g.below(3)];
             hll_sketch r = u.get_result(tt(t));
             Ev e("UResult"); e.i("u", p).i("type", t).raw("r", proj(9, r)); scalars(e, u); e.emit();
@@ -428,7 +430,7 @@ int main(int argc, char** argv) {
         }
       }
       // final result in every type, then the estimates
-      if (!high) emit_results3(p, u);
+      emit_results3(p, u);
       for (int t : T3) { if (high && t != 8 && t != T3[p]) continue; hll_sketch r = u.get_result(tt(t)); Ev e("UResult"); e.i("u", p).i("type", t).raw("r", proj(9, r)); scalars(e, u); e.emit(); }
       { Ev e("UEst"); e.i("u", p); est_fields(e, u); scalars(e, u); e.emit(); }
     }
